@@ -118,6 +118,7 @@ type gen struct {
 	assignErr error
 	frameProps []string
 	opaques map[string]*opaqueDef
+	sweepFrames string // non-empty: frame sweep of this property; callees are called through their sweep frame contracts
 	ifaceCtrs []*Contract // contracts of interface methods this method implements (behavioural subtyping)
 	loopHavoc bool // the havoc in progress is a loop cut, not a call
 	stableCells []stableCell
@@ -1411,6 +1412,14 @@ func (g *gen) loopInvariants(li *loopInfo) []*Clause {
 	}
 	if li.spec != nil {
 		out = append(out, li.spec.Invs...)
+	}
+	if g.sweepFrames != "" && g.ctr != nil {
+		// owned slices and maps stay owned across every loop as well (same clause as the postcondition)
+		for _, en := range g.ctr.Ensures {
+			if strings.HasPrefix(en.Label, "owned-") {
+				out = append(out, en)
+			}
+		}
 	}
 	return out
 }
